@@ -223,6 +223,15 @@ def args_body(c):
         def fun(w, p, x, scale=1.0):
             return core(x, w, p, scale)
         ix, iw, args = 2, 0, lambda x, w: (x, w) and (w, p0, x)
+    # what the operator is handed: the plain function, a bound method or a callable object with the same parameters after `self`
+    fun_form = c.int(0, 2)
+    if fun_form:
+        names = {0: "x, w, p", 1: "p, x, w", 2: "x, p, w", 3: "w, p, x"}[layout]
+        meth = "m" if fun_form == 1 else "__call__"
+        scope = {"core": core}
+        exec(f"class Holder:\n    def {meth}(self, {names}, scale=1.0):\n        return core(x, w, p, scale)\n", scope)
+        fun = scope["Holder"]().m if fun_form == 1 else scope["Holder"]()
+    neg_argnum = c.chance(1, 4)  # the position written as a negative index (counted among the function's own positional arguments)
     kw = {"scale": scale0} if (scale0 != 1.0 or kw_by_name) else {}
     s = scale0 * p0
     ax, ew = float(onp.sum(A * x0)), float(onp.sum(E * w0))
@@ -235,7 +244,10 @@ def args_body(c):
     which = c.choice(["x", "w"])
     argnum, g1, H1, s1, z0 = (ix, gx, Hxx, sx, x0) if which == "x" else (iw, gw, Hww, sw, w0)
     a = args(x0, w0)
-    sample = {"sx": list(sx), "sw": list(sw), "layout": layout, "op": op, "which": which, "kw": kw, "vseed": vseed, "float32_arg": lowp, "prior_failure": prior_failure}
+    if neg_argnum:
+        argnum = argnum - len(a)
+    sample = {"sx": list(sx), "sw": list(sw), "layout": layout, "op": op, "which": which, "kw": kw, "vseed": vseed, "float32_arg": lowp, "prior_failure": prior_failure,
+              "function_form": ["function", "bound method", "callable object"][fun_form], "negative_argnum": neg_argnum}
     bucket = lambda k: f"C16|args|{op}|{k}"
     v = values.direction(vseed, s1, 6)
     n1 = len(s1)
